@@ -1,19 +1,19 @@
 SPECIFICATION VSpec
 CONSTANTS
   Accts = {"A1"}
-  BankNames = {"KB1", "KB2", "KB3"}
+  BankNames = {"KB1", "DB1", "DB2", "DB3"}
   Amounts = {1}
   Ticks = {1}
   LiqTriples <- NoTuples
   Prices <- NoTuples
   BkCases <- NoTuples
   MaxDepth = 4
-  KBanks = {"KB1", "KB2", "KB3"}
-  KAmounts = {0, 1, 3, 1000, 900001, 1255640255}
-  KBorrowed = {0, 5, 2000000}
+  KBanks = {"KB1"}
+  KAmounts = {1000}
+  KBorrowed <- NoTuples
   KMaxDepth = 4
-  DBanks <- NoBanks
-  DAmounts = {0}
-  DCums <- NoTuples
+  DBanks <- DBankSet
+  DAmounts = {0, 1, 3, 1000, 123457, 900001}
+  DCums <- DCumSet
 VIEW VView
 CHECK_DEADLOCK FALSE
